@@ -210,7 +210,10 @@ def _nop(rp, st):
 def _new_measure(rp, st):
     a = st["a"]
     cls = MEASURE_CLASSES[a["cls"]]
-    return cls(Lambda=stack_q(a["Lambda"]), nu=stack_q(a["nu"]), ln_beta=stack_q(a["ln_beta"])), None
+    kw = dict(Lambda=stack_q(a["Lambda"]), nu=stack_q(a["nu"]), ln_beta=stack_q(a["ln_beta"]))
+    for k in a.get("omit", []):      # optional arguments left to their documented defaults
+        del kw[k]
+    return cls(**kw), None
 
 
 @binding("NewPdf")
@@ -229,12 +232,16 @@ def _new_pdf(rp, st):
 def _new_factor(rp, st):
     a = st["a"]
     c = a["cls"]
+    om = set(a.get("omit", []))      # optional arguments left to their documented defaults
+
+    def kw(*names):
+        return {k: stack_q(a["Lambda" if k == "Lambda" else k]) for k in names if k not in om}
     if c == "Factor":
-        return factor.ConjugateFactor(Lambda=stack_q(a["Lambda"]), nu=stack_q(a["nu"]), ln_beta=stack_q(a["ln_beta"])), None
+        return factor.ConjugateFactor(**kw("Lambda", "nu", "ln_beta")), None
     if c == "Rank1":
-        return factor.OneRankFactor(v=stack_q(a["v"]), g=stack_q(a["g"]), nu=stack_q(a["nu"]), ln_beta=stack_q(a["ln_beta"])), None
+        return factor.OneRankFactor(**kw("v", "g", "nu", "ln_beta")), None
     if c == "Linear":
-        return factor.LinearFactor(nu=stack_q(a["nu"]), ln_beta=stack_q(a["ln_beta"])), None
+        return factor.LinearFactor(**kw("nu", "ln_beta")), None
     if c == "Const":
         return factor.ConstantFactor(ln_beta=stack_q(a["ln_beta"]), num_dim=int(a["num_dim"])), None
     raise KeyError(c)
